@@ -12,7 +12,8 @@ from checks import thr_common as T
 INVARIANTS = ["TypeOK", "RunsOnce", "JoinAfterExit", "JoinValue", "ResultVisible", "SpawnFailsCleanly",
               "ReleasedExactlyOnce", "NoUseAfterRelease", "ClosureFreedUnlessPanic", "ResultDropped",
               "BaselineRestored"]
-FIXED = {"RecheckWord": True, "RecheckDrop": True, "CheckClone": True, "RetryClone": False, "MmapFirst": True, "DropResult": True}
+FIXED = {"RecheckWord": True, "RecheckDrop": True, "CheckClone": True, "RetryClone": False, "MmapFirst": True, "DropResult": True,
+         "PanicTakesLock": False}
 
 H_ACTIONS = {"HStartSpawn", "AllocTsm", "BoxClosure", "AfterClosure", "AllocTlsPinned", "Clone", "ReturnHandle",
              "HSkipOp", "JoinStart", "LoadAcquire", "LoadRelaxed", "FutexWait", "JoinReadSlot", "JoinFreeTsm",
@@ -39,7 +40,8 @@ def write_cfg(path, prog, fin, spurious=1, failm="NoThread", failc="NoThread", v
     nt = len(FINS[fin])
     lines = ["SPECIFICATION Spec", "CONSTANTS", " NT = %d" % nt, " Prog <- %s" % prog, " Fin <- %s" % fin,
              " Spurious = %d" % spurious, " FailMmap <- %s" % failm, " FailClone <- %s" % failc]
-    for k in ("RecheckWord", "RecheckDrop", "CheckClone", "RetryClone", "MmapFirst", "DropResult"):
+    lines.append(" PanicHoldsLock <- AllThreads")
+    for k in ("RecheckWord", "RecheckDrop", "CheckClone", "RetryClone", "MmapFirst", "DropResult", "PanicTakesLock"):
         lines.append(" %s = %s" % (k, tla_bool(v[k])))
     lines.append(" KernelAtomic = %s" % tla_bool(katomic))
     if invariants:
@@ -114,6 +116,9 @@ DEFECT_VARIANTS = [
     # unbounded retry while clone fails: with a persistent failure spawn never returns (liveness)
     ("retry-clone-on-eagain", "ProgJ", "FinR", "NoThread", "Only1", {"RetryClone": True},
      {"liveness"}),
+    # the panic handler takes a lock the panicking closure may hold (eprintln! in the handler)
+    ("panic-handler-takes-print-lock", "ProgJ", "FinP", "NoThread", "NoThread", {"PanicTakesLock": True},
+     {"deadlock"}),
     ("pinned-mmap-late", "ProgJ", "FinR", "Only1", "NoThread", {"MmapFirst": False},
      {"SpawnFailsCleanly", "BaselineRestored"}),
     ("pinned-result-forgotten", "ProgD", "FinR", "NoThread", "NoThread", {"DropResult": False},
@@ -452,7 +457,7 @@ def alg_validate(chk, col, cap=None, tag=""):
         cfg = os.path.join(d, name + ".cfg")
         lines = ["INIT AInit", "NEXT ANext", "CONSTANTS", " NT = 1", " Prog <- %s" % cls[0], " Fin <- %s" % cls[1],
                  " Spurious = 1", " FailMmap <- %s" % cls[2], " FailClone <- %s" % cls[3],
-                 " RecheckWord = TRUE", " RecheckDrop = TRUE", " CheckClone = TRUE", " RetryClone = FALSE", " MmapFirst = TRUE", " DropResult = TRUE",
+                 " RecheckWord = TRUE", " RecheckDrop = TRUE", " CheckClone = TRUE", " RetryClone = FALSE", " PanicHoldsLock <- AllThreads", " PanicTakesLock = FALSE", " MmapFirst = TRUE", " DropResult = TRUE",
                  " KernelAtomic = FALSE", "INVARIANT Report", "CHECK_DEADLOCK FALSE"]
         open(cfg, "w").write("\n".join(lines) + "\n")
         jobs.append((name, cls, lst, path, cfg))
